@@ -913,7 +913,7 @@ fn pad_case(bps: u16, rem: u64) {
     }
 }
 
-// @obl props=C06,C05 tier=quick fns=write_zeros,write_zeros_until_end_of_sector
+// @obl props=C06,C05 tier=thorough timeout=3000 fns=write_zeros,write_zeros_until_end_of_sector
 // @bound bounded: length 1025 (three chunks) and (sector size 512, remainder 90); start position symbolic; unbounded version: Verus unit fs_zeros
 // @desc write_zeros writes exactly len bytes, all zero, in chunks of at most 512, starting at the current position; write_zeros_until_end_of_sector pads exactly to the next sector boundary and writes nothing when already aligned
 #[kani::proof]
@@ -1044,4 +1044,60 @@ fn unmount_fsinfo_location() {
     }
     kani::cover!(bps == 4096 && want == 3 * 4096);
     core::mem::forget(fs);
+}
+
+fn slice_fault_case(k: usize) {
+    let mut dev = NdDev::fault_at(k);
+    dev.log_on = true;
+    let buf = [0x11u8, 0x22];
+    let r = {
+        let mut s: DiskSlice<&mut NdDev, NdDev> = DiskSlice::new(1024, 512, 3, &mut dev);
+        s.offset = 10;
+        let r = s.write(&buf);
+        if r.is_ok() {
+            assert!(s.offset == 12);
+        } else {
+            assert!(s.offset == 10);
+        }
+        r
+    };
+    // three mirrors => six device calls (seek, write) x 3; every one of them is checked
+    if k < 6 {
+        assert!(dev.fault_fired);
+        match r {
+            Err(Error::Io(e)) => assert!(e.tag == dev.first_tag),
+            _ => assert!(false, "storage error on a FAT copy swallowed by DiskSlice::write"),
+        }
+    } else {
+        assert!(!dev.fault_fired && matches!(r, Ok(2)) && dev.nwrites == 3);
+    }
+}
+
+// @obl props=C09,C10 tier=quick fns=DiskSlice::write,DiskSlice::flush,DiskSlice::read
+// @desc DiskSlice with three mirrors (a FAT with three copies): a storage error at ANY of the six device calls of one table write (seek or write of the first, second or third copy) is returned as Err(Io(e)) carrying that error and the slice offset does not advance - an error while updating a backup copy is not dropped; likewise flush and read forward the device's error
+#[kani::proof]
+#[kani::unwind(6)]
+fn diskslice_write_faults() {
+    let sel: u8 = kani::any();
+    match sel {
+        0 => slice_fault_case(0),
+        1 => slice_fault_case(1),
+        2 => slice_fault_case(2),
+        3 => slice_fault_case(3),
+        4 => slice_fault_case(4),
+        5 => slice_fault_case(5),
+        _ => slice_fault_case(usize::MAX),
+    }
+    // flush / read
+    let mut dev = NdDev::fault_at(if kani::any() { 0 } else { 1 });
+    let mut s: DiskSlice<&mut NdDev, NdDev> = DiskSlice::new(1024, 512, 1, &mut dev);
+    let which: bool = kani::any();
+    let mut b = [0u8; 2];
+    let res = if which { s.flush().map(|_| 0usize) } else { s.read(&mut b) };
+    drop(s);
+    if dev.fault_fired {
+        assert!(matches!(res, Err(Error::Io(e)) if e.tag == dev.first_tag));
+    }
+    kani::cover!(dev.fault_fired);
+    kani::cover!(sel == 3);
 }
